@@ -101,6 +101,11 @@ def P_rows():
         ("forall <e> in <start>.<r>: int(<e>.<x>) <= 2", lambda t: all(truthy_all([(m,) for m in direct(e, "<x>")], lambda m: int(m) <= 2) for e in dot(S(t), "<r>"))),
         ("exists <e> in <start>.<r>: str(<e>) == '1,2'", lambda t: any(str(e) == "1,2" for e in dot(S(t), "<r>"))),
         ("exists <e> in <start>..<x>: int(<e>) == 3", lambda t: any(int(e) == 3 for e in dotdot(S(t), "<x>"))),
+        # bodies that mention symbols which are NOT below the bound element (they are searched in the whole input)
+        ("forall <e> in <start>.<r>: |<start>.<r>| == 2", lambda t: all(len(dot(S(t), "<r>")) == 2 for e in dot(S(t), "<r>"))),
+        ("exists <e> in <start>..<x>: int(<e>) == 2 and |<r>| == 2", lambda t: any(int(e) == 2 and len(R(t)) == 2 for e in dotdot(S(t), "<x>"))),
+        # a body that tells two structurally equal elements apart by identity
+        ("forall <a> in <x>: forall <b> in <x>: <a> is <b> or int(<a>) != int(<b>)", lambda t: all(a is b or int(a) != int(b) for a in X(t) for b in X(t))),
         ("forall <e> in <start>.<r>: exists <f> in <e>.<x>: int(<f>) == 1", lambda t: all(any(int(f) == 1 for f in direct(e, "<x>")) for e in dot(S(t), "<r>"))),
         ("forall <e> in <start>.<r>: forall <x> in <e>.<x>: int(<x>) <= 2", lambda t: all(all(int(x) <= 2 for x in direct(e, "<x>")) for e in dot(S(t), "<r>"))),
         ("exists <e> in <start>.<r>: forall <f> in <e>.<x>: int(<f>) >= 2", lambda t: any(all(int(f) >= 2 for f in direct(e, "<x>")) for e in dot(S(t), "<r>"))),
